@@ -152,7 +152,7 @@ func coalesceGlobals(printf printFn, dest, src map[string]interface{}, prefix st
 	// tables in globals.
 	for key, val := range sg {
 		if istable(val) {
-			vv := copyMap(val.(map[string]interface{}))
+			vv := deepCopyTable(val.(map[string]interface{}))
 			if destv, ok := dg[key]; !ok {
 				// Here there is no merge. We're just adding.
 				dg[key] = vv
@@ -179,6 +179,16 @@ func coalesceGlobals(printf printFn, dest, src map[string]interface{}, prefix st
 		}
 	}
 	dest[GlobalKey] = dg
+}
+
+// deepCopyTable copies a table including all nested tables and lists, so that merging the
+// destination's globals into the copy can never write through to the source chart's values.
+func deepCopyTable(src map[string]interface{}) map[string]interface{} {
+	c, err := copystructure.Copy(src)
+	if err != nil {
+		return copyMap(src)
+	}
+	return c.(map[string]interface{})
 }
 
 func copyMap(src map[string]interface{}) map[string]interface{} {
